@@ -74,8 +74,12 @@ Record query := mkQuery {
   q_ratio : Z                            (* query interval / storage interval *)
 }.
 
+(* a tag key the series does not carry is written as the value 99 (no pool value); such a series passes no filter on that
+   key (accepted values are pool values) and belongs to no group of a group-by on that key *)
+Definition absent : nat := 99%nat.
 Definition matches (q : query) (s : series) : bool :=
-  forallb (fun kv => existsb (Nat.eqb (nth (fst kv) s 0%nat)) (snd kv)) (q_filter q).
+  forallb (fun kv => existsb (Nat.eqb (nth (fst kv) s 0%nat)) (snd kv)) (q_filter q) &&
+  forallb (fun k => negb (Nat.eqb (nth k s 0%nat) absent)) (q_group q).
 Definition group_of (q : query) (s : series) : list nat := map (fun k => nth k s 0%nat) (q_group q).
 Definition item_aggs (q : query) (f : nat) : list nat :=
   nodupb Nat.eqb (map (fun it => func_agg (ftype f) (snd it)) (filter (fun it => Nat.eqb (fst it) f) (q_items q))).
